@@ -352,7 +352,6 @@ func ruleAEBound() *Rule {
 	}
 }
 
-
 // minOfStartPlusConst: v is min(..., start+K, ...) (numeric.Min or the builtin) where start is the value the loop
 // variable ph enters the loop with and K a positive constant; returns K.
 func minOfStartPlusConst(v ssa.Value, ph *ssa.Phi, loop map[*ssa.BasicBlock]bool) (int64, bool) {
